@@ -10,7 +10,9 @@ From AC.Proofs Require Import ValidateProofs.
 (* reject_<class>, for all malformed classes at once: for EVERY class, entry point and malformed
    class of the `guarded` table, every object whose history matches the entry point and EVERY
    input that exhibits the malformation — whatever else is wrong with it, provided it avoids
-   the non-assertion failure points listed in C19_crash_gaps_refuted — the call ends in
+   the non-assertion failure points listed in C19_crash_gaps_refuted and the known gap O48
+   (gap_free: an id-like ordinal feature is dropped before its values are checked, lemma
+   id_like_gap_refuted) — the call ends in
    AssertionError.  Any state type, any write. *)
 Theorem C19_reject_guarded :
   forall (S : Type) (w : S -> input -> S) (c : cls) (e : entry) (m : mal) (o : obj S) (i : input),
@@ -18,6 +20,7 @@ Theorem C19_reject_guarded :
   fitted o = fitted_at e ->
   exhibits c e m (fitted o) i = true ->
   crash_free (steps w Current c e) (fitted o) i = true ->
+  gap_free e m i = true ->
   fst (run_call (steps w Current c e) o i) = RAssert.
 Proof. exact reject_guarded. Qed.
 Print Assumptions C19_reject_guarded.
